@@ -179,6 +179,22 @@ func init() {
 			done++
 			rep.Count("worlds")
 			rep.Count(fmt.Sprintf("ops:%d", len(ops)))
+			// the same calls into a target directory whose own path has components the ignore rules know
+			// (.terraform, .git, a name a package rule mentions): the bundle must not depend on where it
+			// is built (seed C13-e: rules matched against absolute paths)
+			{
+				odd := filepath.Join(cfg.Work, fmt.Sprintf("op%05d", done), ".terraform", ".git", "logs", "bundle")
+				os.MkdirAll(odd, 0755)
+				envO := newEnv(w)
+				runO := runBuild(w, ops, odd, envO)
+				if runO.timeout || hasErrorDiag(runO.results) || runO.bundle == nil {
+					rep.AddOracle(OracleFailure{Property: "C13", Lane: "builder-order", What: "a build that succeeds elsewhere fails in a target directory below .terraform/.git/logs", Input: c})
+				} else if fp := fingerprint(odd, runO.bundle); fp != base {
+					rep.AddOracle(OracleFailure{Property: "C13", Lane: "builder-order", What: "the bundle differs when it is built in a target directory below .terraform/.git/logs", Input: c})
+				}
+				rep.Count("odd-target-runs")
+				os.RemoveAll(filepath.Join(cfg.Work, fmt.Sprintf("op%05d", done)))
+			}
 			// concurrent Add calls
 			target := filepath.Join(cfg.Work, fmt.Sprintf("oc%05d", done))
 			os.MkdirAll(target, 0755)
@@ -193,6 +209,22 @@ func init() {
 				for k, n := range env.analysed {
 					if n != 1 {
 						rep.AddOracle(OracleFailure{Property: "C14", Lane: "builder-order", What: fmt.Sprintf("under concurrent Add calls %s was analysed %d times", k, n), Input: c})
+					}
+				}
+				// every package is fetched once also when the Add calls overlap (seed C14-e: the lock
+				// released while a download is in flight)
+				fetches := map[string]int{}
+				env.mu.Lock()
+				for _, ev := range env.log {
+					if strings.HasPrefix(ev, "fc:") {
+						fetches[ev]++
+					}
+				}
+				env.mu.Unlock()
+				for k, n := range fetches {
+					if n != 1 {
+						a, _ := UnX(strings.TrimPrefix(k, "fc:"))
+						rep.AddOracle(OracleFailure{Property: "C14", Lane: "builder-order", What: fmt.Sprintf("under concurrent Add calls package %s was fetched %d times", a, n), Input: c})
 					}
 				}
 				rep.Count("concurrent-runs")
